@@ -4,12 +4,13 @@ Spec: spec/Resave.tla (PART 1: the observable content of a workbook, Norm - what
 normalise -, single-cell edits, OrigSim / EditLocal as operators; PART 2: a bounded model of memory / file / save /
 load over generations: private string table per save, style interning that reuses cell format 0 and equal entries,
 blank unstyled cells dropped, a row element per row entry - hidden / custom height / styled, with or without cells -, every
-column entry - hidden / wide / styled) and spec/Channels.tla (every text channel as writer-op / reader-op pair over
+column entry - hidden / wide / styled -, equal declared columns folded into <col min..max> runs only when adjacent) and spec/Channels.tla (every text channel as writer-op / reader-op pair over
 character sequences; Esc / Unesc and, for cell text and cached strings, the ST_Xstring layer XEnc / XDec are computed,
 Unesc(Esc(x)) = x and XDec(XEnc(x)) = x are checked).
 MC_Resave*.cfg: TLC checks FixedPoint, FileFixedPoint, OrigSim (+ the trace specification's way of finding the digest
 of cell format 0), EditLocal, SaveTwiceSame, NormIdempotent on every file of a bounded family; the deviant writer
-that drops styled blank cells and the writer that leaves out hidden rows without cells must be REFUTED (leaving out
+that drops styled blank cells, the writer that leaves out hidden rows without cells and the writer whose column runs
+jump over undeclared columns must be REFUTED (leaving out
 default-valued rows without cells satisfies everything).  MC_Channels*.cfg: the intended configuration is drift-free and
 writes only legal XML; the configuration of the tree before commit 5eeb38a (attributes written escaped, read raw)
 , a writer that does not escape and an ST_Xstring writer that does not protect a literal _xHHHH_ at the very end of a
@@ -23,7 +24,9 @@ texts, and for foreign files built here (the original of a generated workbook ha
 writer, so what a writer defect drops or garbles is not in it): from the behaviours TLC prints for MC_Resave_replay.cfg,
 and files with rows and columns of every kind without cells (hidden, hidden + height, styled, thick, descent, plain) and
 ST_Xstring-relevant texts (literal _xHHHH_ at the start / in the middle / at the end, two in a row, _x005F_, characters
-XML cannot carry) as shared, rich, inline and cached strings.  Every generation logs the full projection through
+XML cannot carry) as shared, rich, inline and cached strings, equal NON-adjacent declared columns (an undeclared or a
+different declared column between them; hidden / width / style), and number formats DECLARED under ids below 164 (ids with
+and without a built-in code) used by cells - the style digest compares the format CODE, never the id.  Every generation logs the full projection through
 public getters; pydec/resave_view.py adds the independent decoder's view of the bytes (part list, string inventory).
 spec/Trace_Resave.tla judges every event with the operators of Resave.tla.
 """
@@ -86,6 +89,15 @@ def _col(n):
 
 FONT0 = {"X0": '<font><sz val="10"/><name val="Foreign Sans &amp; Co"/><family val="2"/></font>',
          "L0": '<font><sz val="11"/><color theme="1"/><name val="Calibri"/><family val="2"/><scheme val="minor"/></font>'}
+# number formats a foreign file DECLARES in its styles.xml: under ids the library has a built-in code for (14, 42, 44: with
+# another code, as localised Excel / WPS write them), under low ids it has none for (23, 60), an id < 164 next to the limit,
+# and ordinary user-defined ids.  Cell formats 3.. use them in this order (XF_NUMFMT = their indexes).
+LOW_NUMFMTS = [(14, "yyyy/mm/dd;@"), (42, '_ "\u00a5"* #,##0_ ;_ "\u00a5"* \\-#,##0_ ;_ "\u00a5"* "-"_ ;_ @_ '), (44, '"CHF" #,##0.00'),
+               (23, "0.0\\ \"low\""), (60, "[$-411]ge.m.d"), (163, "0.000"), (164, '0.0" kg"'), (170, "#,##0.0;[Red]\\-#,##0.0")]
+XF_NUMFMT = list(range(3, 3 + len(LOW_NUMFMTS)))
+NUMFMTS_XML = (f'<numFmts count="{len(LOW_NUMFMTS)}">'
+               + "".join('<numFmt numFmtId="%d" formatCode="%s"/>' % (i, c.replace("&", "&amp;").replace('"', "&quot;").replace("<", "&lt;"))
+                         for i, c in LOW_NUMFMTS) + '</numFmts>')
 NS_MAIN = "http://schemas.openxmlformats.org/spreadsheetml/2006/main"
 NS_REL = "http://schemas.openxmlformats.org/officeDocument/2006/relationships"
 NS_PKG = "http://schemas.openxmlformats.org/package/2006/relationships"
@@ -129,13 +141,16 @@ def build_xlsx(f, code_name="", text_map=None, shared_rows=0, rich="", twin=""):
                                 + '</sheets></workbook>')
     parts["xl/styles.xml"] = (
         f'<?xml version="1.0" encoding="UTF-8" standalone="yes"?><styleSheet xmlns="{NS_MAIN}">'
+        + NUMFMTS_XML +
         f'<fonts count="2">{FONT0[f["x0"]]}<font><b/><sz val="12"/><name val="Bold &amp; Beautiful"/></font></fonts>'
         '<fills count="2"><fill><patternFill patternType="none"/></fill><fill><patternFill patternType="gray125"/></fill></fills>'
         '<borders count="1"><border><left/><right/><top/><bottom/><diagonal/></border></borders>'
         '<cellStyleXfs count="1"><xf numFmtId="0" fontId="0" fillId="0" borderId="0"/></cellStyleXfs>'
-        '<cellXfs count="3"><xf numFmtId="0" fontId="0" fillId="0" borderId="0" xfId="0"/>'
+        f'<cellXfs count="{3 + len(LOW_NUMFMTS)}"><xf numFmtId="0" fontId="0" fillId="0" borderId="0" xfId="0"/>'
         '<xf numFmtId="0" fontId="0" fillId="0" borderId="0" xfId="0" pivotButton="1"/>'
-        '<xf numFmtId="0" fontId="1" fillId="0" borderId="0" xfId="0" applyFont="1"/></cellXfs>'
+        '<xf numFmtId="0" fontId="1" fillId="0" borderId="0" xfId="0" applyFont="1"/>'
+        + "".join(f'<xf numFmtId="{i}" fontId="0" fillId="0" borderId="0" xfId="0" applyNumberFormat="1"/>' for i, _c in LOW_NUMFMTS)
+        + '</cellXfs>'
         '<cellStyles count="1"><cellStyle name="Normal" xfId="0" builtinId="0"/></cellStyles></styleSheet>')
     sst = [text_map.get(t, t) for t in f["sst"]]
     items = [f'<si><t xml:space="preserve">{_xs(t)}</t></si>' for t in sst]
@@ -167,8 +182,8 @@ def build_xlsx(f, code_name="", text_map=None, shared_rows=0, rich="", twin=""):
             out.append(f'<sheetPr codeName="{_esc(code_name)}"/>')
         if sh.get("cols"):
             out.append('<cols>')
-            for c in sorted(sh["cols"], key=lambda c: c["c"]):
-                a = f' min="{c["c"]}" max="{c["c"]}" width="{c["w"]}"'
+            for c in sorted(sh["cols"], key=lambda c: c.get("min", c.get("c"))):
+                a = f' min="{c.get("min", c.get("c"))}" max="{c.get("max", c.get("c"))}" width="{c["w"]}"'
                 if c["w"] != "8.38":
                     a += ' customWidth="1"'
                 if c["xf"] >= 0:
@@ -279,6 +294,25 @@ XS_TEXTS = ["_x0041_", "_x0041_ at the start", "mid_x0041_dle", "REG_x0041_", "_
             "\ufffe edge \uffff", "caf\u00e9_x00E9_", "\U0001F600_xD83D_", "end with cr\r", "_x0041_\u0002"]
 
 
+def gap_cols(rng, base):
+    """equal NON-adjacent declared columns: with an undeclared column between them, and with a declared but different one
+    between them - once for hidden, once for width, once for style"""
+    out, c = [], base
+    for kd in rng.sample([dict(w="8.38", hid=True, xf=-1), dict(w="14.5", hid=False, xf=-1), dict(w="8.38", hid=False, xf=2),
+                          dict(w="5", hid=True, xf=-1), dict(w="8.38", hid=False, xf=XF_NUMFMT[1])], 4):
+        other = dict(w="31", hid=False, xf=-1) if kd["w"] != "31" else dict(w="9", hid=False, xf=-1)
+        if rng.random() < 0.5:
+            out += [dict(kd, c=c), dict(kd, c=c + 2)]                       # c+1 is not declared
+            c += 4
+        else:
+            out += [dict(kd, c=c), dict(other, c=c + 1), dict(kd, c=c + 2)]
+            c += 4
+        if rng.random() < 0.3:
+            out += [dict(kd, c=c), dict(kd, c=c + 1), dict(kd, c=c + 3)]    # an adjacent pair, then a gap
+            c += 5
+    return out
+
+
 def rand_foreign(rng, k):
     """A foreign file beyond the bounded model: rows and columns of every kind WITHOUT cells (hidden + empty, hidden +
     height, styled, thick bottom, descent, plain), the same with cells, and string cells in every encoding (shared
@@ -307,6 +341,12 @@ def rand_foreign(rng, k):
                 elif enc == "inline" and (t.strip() != t or t in ("123", "1e5", "TRUE")):
                     c["t"] = "text"                     # (inline strings go through value guessing in the reader: C03's matter)
                 cells.append(c)
+    cols += gap_cols(rng, 20)
+    if rows:                                                    # numbers (and a text) under every declared number format
+        rn = max(rows) + 2
+        rows[rn] = dict(r=rn, ht="0", hid=False, xf=-1)
+        for ci, xf in enumerate(rng.sample(XF_NUMFMT, 5)):
+            cells.append({"r": rn, "c": ci + 1, "t": "n", "v": rng.choice(["1234.5", "45000", "-7", "0.125"]), "f": "", "xf": xf})
     for cn, kd in zip(rng.sample(range(1, 12), 5), rng.sample(
             [dict(w="8.38", hid=True, xf=-1), dict(w="12.5", hid=True, xf=-1), dict(w="8.38", hid=False, xf=2), dict(w="8.38", hid=False, xf=-1),
              dict(w="30", hid=False, xf=-1), dict(w="8.38", hid=True, xf=2)], 5)):
@@ -340,6 +380,16 @@ def foreign_fixture():
     cols = [dict(c=2, w="8.38", hid=True, xf=-1), dict(c=7, w="8.38", hid=False, xf=-1), dict(c=8, w="8.38", hid=True, xf=-1),
             dict(c=9, w="14.5", hid=True, xf=-1), dict(c=10, w="8.38", hid=False, xf=2), dict(c=11, w="8.38", hid=True, xf=2),
             dict(c=12, w="22", hid=False, xf=-1)]
+    # equal non-adjacent declared columns (hidden / width / style), an undeclared or a different declared column between them
+    for base, kd in ((14, dict(w="8.38", hid=True, xf=-1)), (22, dict(w="14.5", hid=False, xf=-1)), (30, dict(w="8.38", hid=False, xf=2)),
+                     (38, dict(w="5", hid=True, xf=-1))):
+        cols += [dict(kd, c=base), dict(kd, c=base + 2),
+                 dict(kd, c=base + 4), dict(w="31", hid=False, xf=-1, c=base + 5), dict(kd, c=base + 6)]
+    rows.append(dict(r=60, ht="0", hid=False, xf=-1))
+    rows.append(dict(r=61, ht="0", hid=False, xf=XF_NUMFMT[0]))
+    for ci, xf in enumerate(XF_NUMFMT):                          # every declared number format on a number and on a text
+        cells.append({"r": 60, "c": ci + 1, "t": "n", "v": "45000.5", "f": "", "xf": xf})
+        cells.append({"r": 60, "c": ci + 21, "t": "text", "v": "", "f": "", "xf": xf, "text": "text under format %d" % xf})
     f = {"x0": "X0", "xfs": ["X0", "S1"], "sst": ["a", "a&b"], "extra": [], "rid": "o",
          "sheets": [{"cells": cells, "rows": rows, "cols": cols}]}
     edits = [{"si": 0, "mode": "at", "pick": 0, "r": 50, "c": 3, "k": "text", "v": t, "b": ""} for t in ("REG_x0041_", "_x000D_", "a_x005F_x0042_")]
@@ -827,6 +877,8 @@ def run(chk):
         # ... the one whose test for "nothing of its own" forgets `hidden` does not
         expect_refuted(chk, "MC_Resave", "MC_Resave_deviant_hidden.cfg", "OrigSim",
                        "the writer that skips rows without cells, height and style although they are hidden")
+        expect_refuted(chk, "MC_Resave", "MC_Resave_deviant_colfold.cfg", "OrigSim",
+                       "the writer that folds equal declared columns into one run across undeclared columns")
         expect_refuted(chk, "MC_Channels", "MC_Channels_xstring_deviant.cfg", "DriftFree",
                        "an ST_Xstring writer that does not protect a literal _xHHHH_ at the very end of a text")
         expect_refuted(chk, "MC_Channels", "MC_Channels_deviant.cfg", "DriftFree",
